@@ -38,7 +38,7 @@ func coqDisk(s *State, stores map[string]int) string {
 	}
 	pl := "None"
 	if s.PLogs > 0 {
-		pl = "(Some [])"
+		pl = "(Some " + coqHs(s.PLogH) + ")"
 	}
 	return fmt.Sprintf("(mkD %s %s %s %s %s)", coqHs(s.Handles), coqNs(s.Blobs), hx.CoqList(cs), hx.CoqBool(s.TLogs > 0), pl)
 }
@@ -77,7 +77,7 @@ func projected(ev *sopx.Event, tid int, stores map[string]int) (string, bool) {
 		}
 		return "SrUpdate " + hx.CoqList(xs), true
 	case "plog.Add":
-		return "PlogAdd []", true
+		return "PlogAdd " + coqHs(ev.Handles), true
 	case "plog.Get":
 		return "PlogGet", true
 	case "plog.Remove":
